@@ -16,13 +16,13 @@ REPO = "/repo"
 FILES = {
     "src/detail/free_list.cpp": ["C04", "C01", "C12"],
     "src/detail/small_free_list.cpp": ["C04", "C01", "C16", "C12"],
-    "include/foonathan/memory/memory_arena.hpp": ["C05", "C12", "C03"],
+    "include/foonathan/memory/memory_arena.hpp": ["C05", "C12", "C03", "C18"],
     "src/memory_arena.cpp": ["C05", "C12"],
     "include/foonathan/memory/memory_stack.hpp": ["C06", "C02", "C15"],
     "include/foonathan/memory/detail/memory_stack.hpp": ["C02", "C06", "C07"],
     "include/foonathan/memory/memory_pool.hpp": ["C04", "C08", "C18", "C15"],
-    "include/foonathan/memory/memory_pool_collection.hpp": ["C04", "C01", "C18", "C03"],
-    "include/foonathan/memory/iteration_allocator.hpp": ["C07", "C12"],
+    "include/foonathan/memory/memory_pool_collection.hpp": ["C04", "C01", "C18", "C03", "C15", "C08"],
+    "include/foonathan/memory/iteration_allocator.hpp": ["C07", "C12", "C08", "C03"],
     "src/temporary_allocator.cpp": ["C14"],
     "include/foonathan/memory/temporary_allocator.hpp": ["C14"],
     "include/foonathan/memory/joint_allocator.hpp": ["C11", "C20"],
@@ -68,7 +68,7 @@ def candidates(path):
     out = []
     lines = open(os.path.join(REPO, path)).read().split("\n")
     for i, ln in enumerate(lines):
-        if SKIP.match(ln) or not ln.strip() or "operator" in ln or "noexcept(" in ln or "<<" in ln and "std::" in ln:
+        if SKIP.match(ln) or not ln.strip() or ln.strip().startswith('"') or "operator" in ln or "noexcept(" in ln or "<<" in ln and "std::" in ln:
             continue
         code = ln.split("//")[0]
         for a, b in OPS:
@@ -151,6 +151,7 @@ def main():
     ap.add_argument("--lanes", type=int, default=4)
     ap.add_argument("--out", default="/verif/work/mutcamp")
     ap.add_argument("--files", default="")
+    ap.add_argument("--rerun", default="", help="results.jsonl of an earlier campaign: run its survivors / infra again with the current checks")
     a = ap.parse_args()
     os.makedirs(a.out, exist_ok=True)
     rng = random.Random(a.seed)
@@ -158,6 +159,19 @@ def main():
     files = [f for f in FILES if FILES[f] and os.path.exists(os.path.join(REPO, f))]
     if a.files:
         files = [f for f in files if any(x in f for x in a.files.split(","))]
+    if a.rerun:
+        files = []
+        for l in open(a.rerun):
+            r = json.loads(l)
+            if r["status"] in ("survived", "infra", "timeout"):
+                cur = open(os.path.join(REPO, r["file"])).read().split("\n")
+                # the line may have moved: find it again
+                idx = [i for i, x in enumerate(cur) if x == r["before"]]
+                if not idx:
+                    continue
+                line = min(idx, key=lambda i: abs(i - r["line"]))
+                todo.append({"id": r["id"], "file": r["file"], "line": line, "op": r["op"], "before": r["before"],
+                             "after": r["after"], "checks": FILES.get(r["file"], r["checks"])})
     for f in files:
         c = candidates(f)
         rng.shuffle(c)
